@@ -664,7 +664,7 @@ def make_kinds(rng):
     ], opaque=("c:dLbls",), part=chart_part))
     K.append(Kind("bubble_plot", b_bubble, lambda prs: chart0(prs).plots[0], lambda o: o._element, [
         int_prop("bubble_scale", "BubblePlot.bubble_scale", 0, 300, rng, none=("reads", 100), length=False),
-        truthy_prop("vary_by_categories", None, cls="_BasePlot"),      # c:bubbleChart does not declare c:varyColors: oracle only here
+        truthy_prop("vary_by_categories", "_BasePlot.vary_by_categories"),
     ], part=chart_part))
     for cname in ("area", "pie", "doughnut", "radar", "scatter"):
         K.append(Kind(cname + "_plot", (lambda c=cname: _chart(c)), lambda prs: chart0(prs).plots[0], lambda o: o._element, [
@@ -697,7 +697,7 @@ def make_kinds(rng):
         prs.slides.add_slide(prs.slide_layouts[6])
         return prs
     K.append(Kind("click_action", b_two_slides, lambda prs: sh0(prs).click_action, None, [
-        P("target_slide", None, [SlideRef(1), SlideRef(0)], [], [5, "abc"], none=("reads", None), cls="ActionSetting")], reopen=True))
+        P("target_slide", None, [SlideRef(1), SlideRef(0)], [5, "abc"], [], none=("reads", None), cls="ActionSetting")], reopen=True))
     K.append(Kind("shapes", b_autoshape, lambda prs: prs.slides[0].shapes, None, [
         truthy_prop("turbo_add_enabled", None, cls="_BaseShapes", persist=False)]))
     K.append(Kind("color_object", b_solid, lambda prs: sh0(prs).fill.fore_color._color, None, [
@@ -990,6 +990,15 @@ def oracle_trial(ck, kind, p, v, verdict, reopen, stats, where="fresh", prs=None
         return
     # accepted
     read = getp(obj, p.attr)
+    # an accepted assignment must leave every getter of the object working
+    now_all = {q.attr: getp(obj, q.attr) for q in kind.props}
+    mates = {q.attr for q in kind.props if q is not p and p.group is not None and q.group == p.group}
+    raising = [a for a in now_all if now_all[a][0] == "err" and before[a][0] == "ok" and a not in mates]   # facets of the same setting (colour type) excluded
+    if raising:
+        ck.violation("accept-breaks-getter:%s" % p.name,
+                     "%s = %r on a %s (%s) is accepted and afterwards reading %s raises (%s)" % (
+                         p.name, v, kind.name, where, ", ".join(raising), ", ".join("%s -> %s" % (a, reading_repr(now_all[a])) for a in raising)),
+                     dict(rec, impl_outcome=", ".join("%s: %s" % (a, reading_repr(now_all[a])) for a in raising)))
     if verdict == "invalid":
         ck.violation("ood-accepted:%s" % p.name, "%s = %r (outside the documented domain) is accepted; it then reads %s" % (
             p.name, v, reading_repr(read)), dict(rec, impl_outcome=reading_repr(read)))
@@ -1008,6 +1017,8 @@ def oracle_trial(ck, kind, p, v, verdict, reopen, stats, where="fresh", prs=None
         if q is p or (p.group is not None and q.group == p.group):
             continue
         now = getp(obj, q.attr)
+        if q.attr in raising:
+            continue
         if not eq_reading(now, before[q.attr]):
             ck.violation("frame:%s->%s" % (p.name, q.name), "%s = %r on a %s changes the reading of %s from %s to %s" % (
                 p.name, v, kind.name, q.name, reading_repr(before[q.attr]), reading_repr(now)),
